@@ -506,7 +506,7 @@ PLANS = {
     "C03": [M(["tightrace"], 12, 150, fp_quick=True), M(["deathrace", "general", "blocking", "notime", "abort"], 13, 110), M(["reentrant", "undriven", "dropspin", "nest"], 9, 40, seed_off=21), S(["traffic", "lifecycle", "kill", "faults", "timeouts"], 12000, 100000, mode="diff"), S(["overlap"], 3000, 20000, seed_off=400), {"engine": "gen", "actors": (14, 100), "rounds": (1, 2), "skip_negatives": True}, S(["kill", "lifecycle", "backpressure"], 9000, 60000, build="none", seed_off=1000)],
     "C04": [M(["dropspin", "nest"], 5, 30, seed_off=4), S(["lifecycle", "kill", "faults"], 18000, 150000), S(["lifecycle", "kill"], 9000, 60000, build="none", seed_off=1000)],
     "C05": [LAWS, M(["dropspin", "nest"], 6, 40), S(["lifecycle", "faults", "kill"], 18000, 150000), S(["lifecycle", "faults"], 9000, 60000, build="none", seed_off=1000)],
-    "C06": [M(["general", "deathrace"], 6, 60), S(["kill", "backpressure", "lifecycle"], 18000, 150000, mode="diff"), S(["kill", "refs"], 12000, 60000, build="none", seed_off=1000)],
+    "C06": [M(["general", "deathrace", "killstorm"], 9, 70), S(["kill", "backpressure", "lifecycle"], 18000, 150000, mode="diff"), S(["kill", "refs"], 12000, 60000, build="none", seed_off=1000)],
     "C07": [M(["dropspin", "notime", "nest"], 7, 40, seed_off=8), S(["refs", "idle", "lifecycle"], 18000, 150000, mode="diff"), S(["refs", "idle"], 9000, 60000, build="none", seed_off=1000)],
     "C08": [S(["idle", "kill", "traffic"], 18000, 150000), S(["idle", "kill"], 9000, 60000, build="none", seed_off=1000)],
     "C09": [M(["blocking", "lastslot"], 9, 50, seed_off=17), P("default"), P("set", 5, reps=(25, 150)), P("set", 1, reps=(25, 150)), P("set", 2, reps=(25, 150)), P("set", 7, reps=(25, 150)), P("set", 11, reps=(25, 150)), P("set", 13, reps=(25, 150)), P("set", 17, reps=(25, 150)), P("set", 19, reps=(25, 150)), P("set", 23, reps=(25, 150)), P("set", 29, reps=(25, 150)), P("spawn-then-set", 3), P("set-cross", 3), P("set-cross", 40), P("set-seq", 32, m=4), P("set-seq", 32, m=32), P("set-seq", 6, m=6), P("set-seq", 6, m=32), P("set-seq", 1, m=64), P("zero"), S(["backpressure", "traffic"], 24000, 200000), S(["backpressure"], 12000, 80000, build="none", seed_off=1000)],
